@@ -431,7 +431,11 @@ PROP = {
             "has not read is lost like bytes in its pipe), with Quiet after it has stored every sent byte (then a loss is the violation "
             "lost-bytes-when-quiescent); Run must return nil; for the model the session is cut after the messages that were out "
             "(`sess` op as for an abrupt cut: messages, outcome, store); disk: a new process life (new Storer, new Run) goes on "
-            "afterwards. Counters follower_stopped_aof / _rdb / _quiescent",
+            "afterwards. Counters follower_stopped_aof / _rdb / _quiescent. After seeded round 8 (C16-r8-m1, missed): in 3 of 4 disk sessions "
+            "(hash of the round) the leader's STREAM reader is opened as StoreChannel.NewReader does under channel.verifyCrc: true "
+            "(storer.GetReader(off, true); snapshot readers stay unverified: the oracle's snapshots carry no CRC64 footer), so that every "
+            "segment it follows into across a rotation (LogSize 40/64/200), closed or still being written, passes through the CRC "
+            "check first; counter leader_verifycrc; witness corpus/C16/verifycrc_live_segment.txt",
     "trusted": ["grpc-go on loopback TCP between the real Run and the real ServiceReplica (no fake transport); the harness's stream wrapper, "
                 "WaitCloser/Logger wrappers of the follower and Input/Channel wrappers of the leader",
                 "history oracle of the harness (two run ids differ at every offset) and its file parser for the disk backend",
